@@ -44,10 +44,49 @@ def seeds_table():
     return '\n'.join(out)
 
 
+def status_table():
+    import importlib, sys, pkgutil
+    sys.path.insert(0, str(ROOT))
+    trans = {}
+    import translator
+    for m in pkgutil.iter_modules(translator.__path__):
+        if m.name.startswith('gen_'):
+            try:
+                mod = importlib.import_module(f'translator.{m.name}')
+                for pr in getattr(mod, 'PROPS', []):
+                    trans.setdefault(pr, []).append(m.name)
+            except Exception:
+                pass
+    fs = []
+    files = [ROOT / 'known_findings.json'] + sorted((ROOT / 'known_findings').glob('*.json'))
+    for f in files:
+        fs += json.loads(f.read_text()).get('findings', [])
+    seeds = {}
+    for d in sorted((ROOT / 'seeded').iterdir()):
+        mf = d / 'meta.json'
+        if d.is_dir() and mf.exists():
+            m = json.loads(mf.read_text())
+            pr = m.get('property', d.name.split('_')[0])
+            cv = m.get('coordinator_verification', {})
+            tot, hit = seeds.get(pr, (0, 0))
+            seeds[pr] = (tot + 1, hit + (1 if pr in cv.get('caught_by', []) else 0))
+    out = ['| Prop | theorems in Props/Cxx.lean | translator modules | defects fixed / open | seeded changes caught by own check / total |', '|---|---|---|---|---|']
+    for i in range(1, 21):
+        pr = f'C{i:02d}'
+        src = (ROOT / 'lean' / 'NavisModel' / 'Props' / f'{pr}.lean').read_text()
+        src = re.sub(r'/-.*?-/', '', src, flags=re.S)
+        n = len(re.findall(r'^\s*theorem\s', src, flags=re.M))
+        fx = sum(1 for k in fs if k['property'] == pr and k.get('status') == 'fixed')
+        op = sum(1 for k in fs if k['property'] == pr and k.get('status') != 'fixed')
+        tot, hit = seeds.get(pr, (0, 0))
+        out.append(f"| {pr} | {n} | {', '.join(sorted(trans.get(pr, []))) or '—'} | {fx} / {op} | {hit} / {tot} |")
+    return '\n'.join(out)
+
+
 def main():
     p = ROOT / 'DESIGN.md'
     s = p.read_text()
-    for tag, body in (('FINDINGS', findings_table()), ('SEEDS', seeds_table())):
+    for tag, body in (('FINDINGS', findings_table()), ('SEEDS', seeds_table()), ('STATUS', status_table())):
         b, e = f'<!-- BEGIN:{tag} -->', f'<!-- END:{tag} -->'
         if b in s:
             s = s[:s.index(b) + len(b)] + '\n' + body + '\n' + s[s.index(e):]
